@@ -16,4 +16,24 @@ MC_ProcOf == [l \in Lockers |-> IF l = "a" THEN "P" ELSE "Q"]
 \* reachability companions (must FAIL)
 NeverTimedOut == ~(\E l \in Lockers : pc[l] = "idle" /\ rounds[l] > 0 /\ ~locked[l] /\ now >= deadline[l] /\ (busy \ {l}) # {})
 NeverAcquiredAfterDeath == ~(\E l \in Lockers : l \in holding /\ dead # {})
+
+(***************************************************************************)
+(* Liveness (C19: "a blocked acquirer fails with a timeout error within    *)
+(* its configured timeout", as an eventuality): under weak fairness of the *)
+(* clock and of every locker that is INSIDE acquire() or release() - a     *)
+(* holder may sit on the lock forever, an idle locker need not start, a    *)
+(* process may die at any time - every acquire() call returns (True or     *)
+(* TimeoutError) and every release() call returns.  The clock of the       *)
+(* model is bounded, so acquire() is only started while its deadline is    *)
+(* still on the clock (LiveNext); nothing else is constrained.             *)
+(*   BlockingFlock = TRUE must violate AcquireReturns (the blocked flock   *)
+(*   has no enabled step while the holder sits on the lock).               *)
+(***************************************************************************)
+InCall(l) == pc[l] \notin {"idle", "held", "dead"}
+LiveNext == Next /\ (\A l \in Lockers : deadline'[l] <= MaxNow)
+LiveSpec == Init /\ [][LiveNext]_vars
+            /\ WF_vars(Tick)
+            /\ \A l \in Lockers : WF_vars(InCall(l) /\ LockerStep(l))
+AcquireReturns == \A l \in Lockers : InCall(l) ~> ~InCall(l)
+\* with a holder that never releases, a contender that keeps calling acquire() keeps getting TimeoutError - and never True
 =============================================================================
